@@ -204,6 +204,36 @@ func (g *gen) validVal(k pkind) string {
 			parts[i] = g.structLit(true)
 		}
 		return "[" + strings.Join(parts, ",") + "]"
+	case kStructSliceSlice, kPtrStructSliceSlice:
+		switch g.pick(8) {
+		case 0:
+			return "null"
+		case 1:
+			return "[]"
+		}
+		n := 1 + g.pick(3)
+		parts := make([]string, n)
+		for i := range parts {
+			if k == kPtrStructSliceSlice && g.p(20) {
+				parts[i] = "[" + g.structLit(true) + ",null]"
+				continue
+			}
+			parts[i] = g.validVal(kStructSlice)
+		}
+		return "[" + strings.Join(parts, ",") + "]"
+	case kMapStructSlice:
+		switch g.pick(8) {
+		case 0:
+			return "null"
+		case 1:
+			return "{}"
+		}
+		n := 1 + g.pick(3)
+		parts := make([]string, n)
+		for i := range parts {
+			parts[i] = `"key` + strconv.Itoa(i) + `":` + g.validVal(kStructSlice)
+		}
+		return "{" + strings.Join(parts, ",") + "}"
 	case kMapPtrStruct:
 		switch g.pick(6) {
 		case 0:
@@ -245,6 +275,13 @@ func (g *gen) invalidVal(k pkind) string {
 		return pickS(g, []string{"[" + g.structLit(false) + "]", "5", `{"A":1}`, "[5]", `"x"`, "[" + g.structLit(true) + "," + g.structLit(false) + "]", "[{}]"})
 	case kMapPtrStruct:
 		return pickS(g, []string{`{"k":` + g.structLit(false) + `}`, "[]", "5", `{"k":5}`, `"x"`, `{"a":` + g.structLit(true) + `,"b":{}}`})
+	case kStructSliceSlice, kPtrStructSliceSlice:
+		// a rule broken only inside the inner container, next to valid neighbours
+		return pickS(g, []string{"[[" + g.structLit(false) + "]]", "[[" + g.structLit(true) + "],[" + g.structLit(true) + "," + g.structLit(false) + "]]",
+			"[[" + g.structLit(true) + "," + g.structLit(true) + "],[],[" + g.structLit(false) + "]]", "[[{}]]", "5", "[5]", "[[5]]", `{"A":1}`, "[" + g.structLit(true) + "]"})
+	case kMapStructSlice:
+		return pickS(g, []string{`{"k":[` + g.structLit(false) + `]}`, `{"a":[` + g.structLit(true) + `],"b":[` + g.structLit(true) + `,` + g.structLit(false) + `]}`,
+			`{"a":[],"b":[{}]}`, "[]", "5", `{"k":5}`, `{"k":[5]}`, `{"k":` + g.structLit(true) + `}`})
 	}
 	return ""
 }
@@ -266,6 +303,12 @@ func (g *gen) unsureVal(k pkind) string {
 		return pickS(g, []string{`[{"a":5}]`, `[null]`})
 	case kMapPtrStruct:
 		return pickS(g, []string{`{"k":{"A":1},"k":{"A":2}}`, `{"k":{"a":1}}`})
+	case kStructSliceSlice:
+		return pickS(g, []string{`[[{"a":5}]]`, `[[null]]`})
+	case kPtrStructSliceSlice:
+		return pickS(g, []string{`[[{"a":5}]]`, `[[{"A":1,"C":3}]]`})
+	case kMapStructSlice:
+		return pickS(g, []string{`{"k":[{"A":1}],"k":[{"A":2}]}`, `{"k":[{"a":1}]}`, `{"k":[null]}`})
 	}
 	return "null"
 }
